@@ -416,7 +416,7 @@ def check(model: Model, run: Run) -> None:
         'last-resort barriers: Message.unpack in read_message sits in a try whose handler covers Exception and '
         're-raises Notify; Update.unpack_message forces the lazy parse inside that barrier; Peer._run ends with an '
         'except Exception arm',
-        floor=3,
+        floor=1,
     )
     _r4_barriers(model, run)
 
@@ -425,7 +425,7 @@ def check(model: Model, run: Run) -> None:
         'C03.R5',
         'unknown attributes are not refused: in AttributeCollection.parse the unknown non-transitive branch neither '
         'raises nor adds a marker and the unknown transitive branch keeps a GenericAttribute',
-        floor=2,
+        floor=1,
     )
     _r5_unknown(model, run)
 
